@@ -464,7 +464,7 @@ fn scan_checks(h: &History, rep: &mut Report, rng: &mut Rng) {
 }
 
 pub fn run(p: &Params, rep: &mut Report) {
-    rep.rule = "seeded histories of dataset creation, insert_data, annotate (data with and without ids, by id/handle, repeated (key,value) pairs), remove_data, remove_key; after every operation: returned data handles vs the model's exactly-once prediction, dedup invariants on the live sets, key.data()/find_data/test_data/data_by_value vs a scan of all data (4 any-combinations x ~15 operators), and the filter adaptors over the data and the annotations of the whole store (filter_key_handle_value, filter_key+filter_value, filter_set+..., annotations().filter_key_value) vs a scan; plus the full cross product of a 25-value pool x ~100 operators (every variant, Not, And/Or nested) against a reference written from the doc comments. distinct_nontrivial = distinct (value type, operator) cells where the reference says the test passes + distinct (route, key?, operator) searches with non-empty result".into();
+    rep.rule = "seeded histories of dataset creation, insert_data, annotate (data with and without ids, by id/handle, repeated (key,value) pairs), remove_data, remove_key; after every operation: returned data handles vs the model's exactly-once prediction, dedup invariants on the live sets, key.data()/find_data/test_data/data_by_value vs a scan of all data (4 any-combinations x ~15 operators), and the filter adaptors over the data and the annotations of the whole store (filter_key_handle_value, filter_key+filter_value, filter_set+..., annotations().filter_key_value) vs a scan; at the end of half of the histories a key is declared without data (low-level insert) and removed again, and the comparisons are repeated; plus the full cross product of a 31-value pool x ~100 operators (every variant, Not, And/Or nested) against a reference written from the doc comments. distinct_nontrivial = distinct (value type, operator) cells where the reference says the test passes + distinct (route, key?, operator) searches with non-empty result".into();
     rep.assumptions = vec![
         "NaN is excluded (IEEE inequality makes 'same value' undefined)".into(),
         "Bool vs Equals(string), Int vs EqualsFloat and Float vs EqualsInt are not documented and not judged".into(),
@@ -512,6 +512,26 @@ pub fn run(p: &Params, rep: &mut Report) {
                 break;
             }
             scan_checks(&h, rep, &mut rng);
+        }
+        // a key that is declared but never gets data (low-level insert), removed again: the vocabulary and its index are as before
+        if h.ended.is_none() && rng.chance(1, 2) {
+            let sets: Vec<AnnotationDataSetHandle> = h.store.datasets().filter(|s| s.id() != Some(TEXTVALIDATION_SET)).map(|s| s.handle()).collect();
+            if !sets.is_empty() {
+                let sh = *rng.pick(&sets);
+                let added = guard(|| {
+                    let ds: &mut AnnotationDataSet = h.store.get_mut(sh).map_err(|e| e.to_string())?;
+                    ds.insert(DataKey::new("declared-but-unused")).map(|_| ()).map_err(|e| e.to_string())
+                });
+                if matches!(added, Ok(Ok(()))) {
+                    rep.eval();
+                    rep.count("unused-key/added-and-removed");
+                    match guard(|| h.store.remove_key(sh, "declared-but-unused", rng.chance(1, 2))) {
+                        Ok(Ok(())) => scan_checks(&h, rep, &mut rng),
+                        Ok(Err(e)) => rep.violation("C10/unused-key/remove_key-refused", json!({"error": e.to_string(), "history": h.replay_json()})),
+                        Err(pn) => rep.violation(format!("C10/unused-key/remove_key-panic/{}", pn.class()), json!({"panic": pn.msg, "history": h.replay_json()})),
+                    }
+                }
+            }
         }
         if k % 101 == 0 {
             rep.sample(json!({"case": k, "history": h.replay_json()}));
